@@ -227,10 +227,10 @@ func (l c11CacheLine) render() string {
 type c11FileCase struct {
 	Lines []c11CacheLine `json:"cache_lines"`
 	// requests resolved afterwards: index into Lines (its address) or -1 for an address that is not in the file
-	Lookups []int  `json:"lookups"`
-	Gateway bool   `json:"gateway_mac_present"`
-	Readers int    `json:"concurrent_readers"`
-	Long16  bool   `json:"requests_use_16_byte_addresses"`
+	Lookups []int `json:"lookups"`
+	Gateway bool  `json:"gateway_mac_present"`
+	Readers int   `json:"concurrent_readers"`
+	Long16  bool  `json:"requests_use_16_byte_addresses"`
 }
 
 func c11GenLines(t *rapid.T, n int) []c11CacheLine {
@@ -402,13 +402,13 @@ func TestC11CacheFile(t *testing.T) {
 // ---------------------------------------------------------------- (c) full commands: arp --json | tcp/udp/icmp -a -
 
 type c11CmdCase struct {
-	Cmd      string       `json:"ip_level_command"`
-	Hosts    []c11Reply   `json:"hosts_answering_the_arp_scan"` // within 10.77.0.0/26
-	Repeat   []int        `json:"hosts_answering_twice_with_another_mac"`
-	Stdin    bool         `json:"cache_from_stdin"`
-	DashA    bool         `json:"explicit_dash_a"`
-	Gateway  bool         `json:"gwmac"`
-	Seed     int64        `json:"rand_seed"`
+	Cmd     string     `json:"ip_level_command"`
+	Hosts   []c11Reply `json:"hosts_answering_the_arp_scan"` // within 10.77.0.0/26
+	Repeat  []int      `json:"hosts_answering_twice_with_another_mac"`
+	Stdin   bool       `json:"cache_from_stdin"`
+	DashA   bool       `json:"explicit_dash_a"`
+	Gateway bool       `json:"gwmac"`
+	Seed    int64      `json:"rand_seed"`
 }
 
 const c11Subnet = "10.77.0.0/26"
